@@ -266,6 +266,20 @@ func (d *decompressor) nextBlockAt(off int64, rs io.ReadSeeker) *decompressor {
 // expectedMemberSize returns the size of the BGZF conformant gzip member.
 // It returns -1 if no BGZF block size field is found.
 func expectedMemberSize(h gzip.Header) int {
+	// Walk the subfields of the extra field so that the bytes of
+	// another subfield's data are not taken for the BC subfield.
+	for x := h.Extra; len(x) >= 4; {
+		n := int(x[2]) | int(x[3])<<8
+		if len(x) < 4+n {
+			break
+		}
+		if x[0] == 'B' && x[1] == 'C' && n == 2 {
+			return (int(x[4]) | int(x[5])<<8) + 1
+		}
+		x = x[4+n:]
+	}
+	// The extra field is not a sequence of subfields
+	// holding a BC subfield; search for its prefix.
 	i := bytes.Index(h.Extra, bgzfExtraPrefix)
 	if i < 0 || i+5 >= len(h.Extra) {
 		return -1
